@@ -205,6 +205,39 @@ def run(res, programs, tier):
                         res.fail("R13.2", cfgname, key, "inv_large returns None on an edge that is neither `raw == 0` nor `!is_g_one`", span_loc(s["sp"]))
             if nn < 2:
                 res.anchor("R13.2", cfgname, "two None returns in inv_large")
+            # the invertibility flag of the multi-word branch must depend on the *length* of the gcd
+            # (a multi-word gcd whose low word is 1 is not 1) as well as on its low word
+            body = f["mir"]
+            gcd_dest = None
+            for bb, t, fr in mir.iter_calls(body):
+                if fr and (fr.get("rp") or fr["p"]) == "dashu_int::gcd::gcd_ext_in_place":
+                    gcd_dest = t["d"]["l"]
+            flags = set()
+            for i, blk in enumerate(body["bbs"]):
+                t = blk["t"]
+                if t["k"] == "switch" and i in cfg.reachable():
+                    # the switch whose one side is the `return None`
+                    l = mir.op_local(t["d"])
+                    if l is not None and any(cfg.is_panic_block(x) is False and any(s2["k"] == "as" and s2["p"]["l"] == 0 and s2["rv"]["k"] == "agg" and s2["rv"].get("vn") == "None" for s2 in body["bbs"][x]["s"]) for x in cfg.succ[i]):
+                        flags.add(l)
+            key = "inv_large: invertibility flag depends on the gcd length"
+            if gcd_dest is None or not flags:
+                res.anchor("R13.2", cfgname, key)
+            else:
+                locs, _calls = mir.backward_slice(body, list(flags), control=True)
+                reads_len = False
+                for i, j, s2 in mir.iter_stmts(body):
+                    if s2["k"] == "as" and s2["p"]["l"] in locs:
+                        def chk(pl):
+                            nonlocal reads_len
+                            pr = pl.get("p", [])
+                            if pl["l"] == gcd_dest and pr and pr[0].get("k") == "f" and pr[0].get("i") == 0:
+                                reads_len = True
+                        mir.walk_places(s2["rv"], chk)
+                if reads_len:
+                    res.ok("R13.2", cfgname, key, sample=dict(function=f["p"], note="is_g_one reads gcd_ext_in_place(..).0 (g_len)"))
+                else:
+                    res.fail("R13.2", cfgname, key, "inv_large decides invertibility without the length of the gcd returned by gcd_ext_in_place: a multi-word gcd whose lowest word is 1 would be taken for 1 and inv() would return Some for a non-invertible element", span_loc(f["sp"]))
         # ---- R13.3b constructors
         ctor_ok = {M + "Reduced::<'a>::from_single", M + "Reduced::<'a>::from_double", M + "Reduced::<'a>::from_large"}
         nct = 0
